@@ -353,3 +353,23 @@ pub fn request_from_signature(r: &mut Rng) -> Option<Msg> {
     let head_len = head.len();
     Some(Msg { bytes: head.into_bytes(), head_len })
 }
+
+/// The same message with bare-LF line ends in its head (some clients and many hand-written tools send them) and a
+/// body that contains CRLF CRLF, header-looking lines, or a whole CRLF-terminated message.
+pub fn lf_variant(r: &mut Rng, m: Msg) -> Msg {
+    let head = String::from_utf8_lossy(&m.bytes[..m.head_len.min(m.bytes.len())]).replace("\r\n", "\n");
+    // (a head without any CRLF left: mixed endings are produced by keeping one of them now and then)
+    let head = if r.chance(1, 4) { head.replacen('\n', "\r\n", 1) } else { head };
+    let mut bytes = head.clone().into_bytes();
+    let head_len = bytes.len();
+    match r.below(4) {
+        0 => bytes.extend_from_slice(b"--boundary\r\nContent-Disposition: form-data; name=\"a\"\r\n\r\nvalue\r\n--boundary--\r\n"),
+        1 => bytes.extend_from_slice(b"HTTP/1.1 200 OK\r\nServer: other\r\nContent-Length: 0\r\n\r\n"),
+        2 => bytes.extend_from_slice(b"GET /inner HTTP/1.1\r\nHost: inner.example.test\r\nUser-Agent: inner/1.0\r\n\r\n"),
+        _ => {
+            let n = r.urange(0, 60);
+            bytes.extend_from_slice(&body(r, n));
+        }
+    }
+    Msg { bytes, head_len }
+}
